@@ -191,7 +191,12 @@ pub fn format_general(
                 let magnitude = format!("{magnitude:.precision$}");
                 let base = maybe_remove_trailing_redundant_chars(magnitude, alternate_form);
                 let point = decimal_point_or_empty(precision, alternate_form);
-                format!("{base}{point}")
+                if always_shows_fract && point.is_empty() && !base.contains('.') {
+                    // like repr: an integral result keeps one fractional digit
+                    format!("{base}.0")
+                } else {
+                    format!("{base}{point}")
+                }
             }
         }
         magnitude if magnitude.is_nan() => format_nan(case),
